@@ -570,6 +570,11 @@ def stream_transform(ctx, corr_failures):
                 d.insert(r.randint(0, len(d)), [r.choice(finite_bars(d))[0], math.inf])
         if r.random() < 0.05:
             c["hom_deg"] = len(c["dgms"]) + r.randint(0, 1)
+        if c["start"] is not None and c["stop"] is not None and r.random() < 0.15:
+            # exactly ONE end of the grid fixed by the user (start=0 for an H1 diagram, stop=the filtration threshold),
+            # the other left to be learned: fit must keep the given end
+            c["start" if r.random() < 0.5 else "stop"] = None
+            ctx.count("transform:half_fixed_grid")
         c["op"] = "transform"
         c["flatten"] = r.random() < 0.6
         c["fit"] = r.choice(["fit_transform", "fit+transform", "transform"])
